@@ -649,6 +649,9 @@ func (r *Cache) Close(force bool) {
 	r.mu.Unlock()
 
 	if head != nil {
+		// The cacher callbacks expect the read lock to be held.
+		r.mu.RLock()
+		defer r.mu.RUnlock()
 		head.enumerateNodesWithCB(func(nodes []*Node) {
 			for _, n := range nodes {
 				// Zeroing ref. Prevent unRefExternal to call finalizer.
@@ -747,13 +750,26 @@ func (n *Node) unRefInternal(updateStat bool) {
 func (n *Node) unRefExternal() {
 	if atomic.AddInt32(&n.ref, -1) == 0 {
 		n.r.mu.RLock()
-		if n.r.closed {
-			n.callFinalizer()
-		} else {
-			n.r.delete(n)
-			atomic.AddInt64(&n.r.statDel, 1)
-		}
+		n.zeroRefLocked()
 		n.r.mu.RUnlock()
+	}
+}
+
+// unRefLocked is unRefExternal for callers that already hold the cache's
+// read lock, i.e. the cacher callbacks. Acquiring the read lock recursively
+// deadlocks once Close is waiting for the write lock.
+func (n *Node) unRefLocked() {
+	if atomic.AddInt32(&n.ref, -1) == 0 {
+		n.zeroRefLocked()
+	}
+}
+
+func (n *Node) zeroRefLocked() {
+	if n.r.closed {
+		n.callFinalizer()
+	} else {
+		n.r.delete(n)
+		atomic.AddInt64(&n.r.statDel, 1)
 	}
 }
 
@@ -778,6 +794,16 @@ func (h *Handle) Release() {
 	if nPtr != nil && atomic.CompareAndSwapPointer(&h.n, nPtr, nil) {
 		n := (*Node)(nPtr)
 		n.unRefExternal()
+	}
+}
+
+// releaseLocked releases this 'cache handle' on behalf of a cacher callback,
+// which runs with the cache's read lock held.
+func (h *Handle) releaseLocked() {
+	nPtr := atomic.LoadPointer(&h.n)
+	if nPtr != nil && atomic.CompareAndSwapPointer(&h.n, nPtr, nil) {
+		n := (*Node)(nPtr)
+		n.unRefLocked()
 	}
 }
 
